@@ -778,8 +778,12 @@ func parseStringLiteral(literal string) (string, error) {
 			case '1', '2', '3', '4', '5', '6', '7':
 				// TODO strict
 				value = rune(chr) - '0'
+				digits := 2
+				if chr >= '4' {
+					digits = 1 // \4..\7 take at most one more digit
+				}
 				j := 0
-				for ; j < 2; j++ {
+				for ; j < digits; j++ {
 					if len(str) < j+1 {
 						break
 					}
